@@ -21,7 +21,7 @@ from ..gen import trees as GT
 from ..model import dims as M
 
 LEVEL = "exploration"
-TECHNIQUE = "runtime monitoring: before/after invariant on print_bindings() + stale-binding probe checks around failing, raising (incl. injected user-code exceptions of both classes) and repeated checks; the check is asked the way typecheckers ask (isinstance, beartype DOOR incl. the __instancecheck_str__ hook, typeguard check_type); '?' axes of an already bound structure; rollback invariant on every nested isinstance event (check-trace monitor); checks made 2-70 frames below the recursion limit in a fresh process (die with RecursionError or answer as usual, bindings rolled back)"
+TECHNIQUE = "runtime monitoring: before/after invariant on print_bindings() + stale-binding probe checks around failing, raising (incl. injected user-code exceptions of both classes) and repeated checks; the check is asked the way typecheckers ask (isinstance, beartype DOOR incl. the __instancecheck_str__ hook, typeguard check_type); '?' axes of an already bound structure; rollback invariant on every nested isinstance event (check-trace monitor); checks made 2-70 frames below the recursion limit in a fresh process (die with RecursionError or answer as usual, bindings rolled back); scenarios run one level below an enclosing scope whose bindings must survive them unchanged"
 LEVEL_TEXT = (
     "Held on every generated failing/raising/passing check explored, with the mismatch position uniform over axes and "
     "leaves and user-code faults (Exception and BaseException) enumerated over the k-th access of shape/dtype, leaf "
